@@ -5,5 +5,12 @@
 namespace sim {
 Trace genTz(const std::string& profile, uint64_t seed);
 bool execTz(const Trace& tr, Verdict& v, Coverage& cov, bool& nontrivial, Bitmap* bm);
+// Pristine reference process for the fresh oracle (see tz.cpp). Call once, before anything else has run.
+void pristineInit();
+// Batch mode: a delegate that executes a whole run in a process with no history, exactly as `replay` would
+// (its own pristine reference included), so that what it reports reproduces as a single trace.
+void delegateInit();
+bool delegateRequest(const Trace& tr);
+bool delegateResponse(Verdict& v);
 }
 #endif
